@@ -297,6 +297,7 @@ func runLoopsStream(r *Run) {
 	}
 	if r.Shard == 0 {
 		loopsPushFamily(r)
+		loopsMutatedMapFamily(r)
 	}
 	maxLen := 5
 	if r.Tier == "thorough" {
